@@ -8,8 +8,7 @@ from hypothesis import strategies as st
 from reactivex.scheduler import CatchScheduler
 
 from vlib.core import FAIL, OK, Check
-from vlib.values import Tagged
-from vlib.vtsched import VTModel, clock_of, enc_abs, enc_rel, escaped, make
+from vlib.vtsched import EXC_TYPES, VTModel, clock_of, enc_abs, enc_rel, escaped, make, make_exc
 
 PROPERTY_ID = "C42"
 LEVEL = "fault_enumeration"
@@ -18,7 +17,7 @@ RULE = (
     "every node is scheduled with schedule / schedule_relative / schedule_absolute / schedule_periodic (roots on the outer "
     "CatchScheduler, children through the scheduler handed to the parent action or - 'outer' - through the outer "
     "CatchScheduler; int/float/timedelta/datetime time arguments); a node's program schedules its children and may raise "
-    "at one position; periodic nodes raise at their k-th tick and/or dispose themselves at their m-th tick. The handler "
+    "at one position, with a generated exception type (Tagged, TypeError, ValueError, KeyError, AttributeError, StopIteration, a custom subclass, a falsy exception object); periodic nodes raise at their k-th tick and/or dispose themselves at their m-th tick. The handler "
     "answers with a generated cyclic list of verdicts. start() is repeated (after stop()) while something escaped. Oracle "
     "(explicit model: priority list by (due, seq), handler verdict list): (1) the handler is called exactly once per raised "
     "exception, in raise order, with that very exception object; (2) exactly the exceptions with a falsy verdict escape "
@@ -80,8 +79,8 @@ def _execute(nodes, verdicts, wrapped):
     outer = CatchScheduler(inner, handler) if wrapped else inner
     disps = {}
 
-    def boom(tag):
-        ex = Tagged(tag)
+    def boom(tag, exc_type):
+        ex = make_exc(exc_type or "tagged", tag)
         raised[tag] = ex
         raise ex
 
@@ -90,13 +89,13 @@ def _execute(nodes, verdicts, wrapped):
         if how == "per":
             count = [0]
 
-            def paction(state):
+            def paction(state="<called-without-state>"):
                 count[0] += 1
                 if count[0] > node["stop_at"] + 2 or count[0] > (node["raise_at"] or 99):
                     raise _Runaway(f"p{nid} tick {count[0]}")
                 log.append([nid, clock_of("test", inner), state])
                 if count[0] == node["raise_at"]:
-                    boom(f"p{nid}.{count[0]}")
+                    boom(f"p{nid}.{count[0]}", node.get("exc"))
                 if count[0] >= node["stop_at"]:
                     disps[nid].dispose()
                 return state + 1
@@ -108,7 +107,7 @@ def _execute(nodes, verdicts, wrapped):
             log.append([nid, clock_of("test", inner)])
             for op in node["ops"]:
                 if op[0] == "raise":
-                    boom(f"n{nid}")
+                    boom(f"n{nid}", node.get("exc"))
                 else:
                     schedule(op[1], scheduler if op[1].get("via", "handed") == "handed" else outer)
 
@@ -171,6 +170,7 @@ def _model(nodes, verdicts):
     def raise_(tag, node):
         handled.append(tag)
         info["raise"] += 1
+        info.setdefault("exc_types", set()).add(("periodic:" if node["how"] == "per" else "action:") + (node.get("exc") or "tagged"))
         if node["how"] == "per":
             info["periodic_raise"] += 1
             if live - {node["id"]}:
@@ -247,6 +247,8 @@ def _run(case):
         cls.append("raise-in-nested-action")
     if info["periodic_raise"]:
         cls.append("raise-in-periodic")
+    for t in sorted(info.get("exc_types", ())):
+        cls.append("raised:" + t)
     if info.get("overlap"):
         cls.append("periodic-raise-while-another-periodic-live")
     if info.get("survivor_tick"):
@@ -303,6 +305,9 @@ def _run(case):
 _T = st.one_of(st.sampled_from([0, 1, 1, 2, 3]), st.integers(0, 8))
 
 
+_EXC = st.sampled_from(EXC_TYPES + ("type", "type"))  # type of the exception the node raises (if it raises)
+
+
 def _periodic():
     return st.fixed_dictionaries(
         {
@@ -313,6 +318,7 @@ def _periodic():
             "raise_at": st.one_of(st.none(), st.integers(1, 5)),
             "via": st.sampled_from(["handed", "handed", "outer"]),
             "ops": st.just([]),
+            "exc": _EXC,
         }
     ).map(lambda n: dict(n, raise_at=n["raise_at"] if (n["raise_at"] or 9) <= n["stop_at"] else None))
 
@@ -328,7 +334,9 @@ def _node(depth):
         st.fixed_dictionaries({"how": st.just("rel"), "t": _T, "form": st.sampled_from(["num", "int", "td"])}),
         st.fixed_dictionaries({"how": st.just("abs"), "t": st.integers(0, 12), "form": st.sampled_from(["num", "int", "dt"])}),
     )
-    return st.tuples(plain, ops, st.sampled_from(["handed", "handed", "handed", "outer"])).map(lambda t: dict(t[0], ops=t[1], via=t[2]))
+    return st.tuples(plain, ops, st.sampled_from(["handed", "handed", "handed", "outer"]), _EXC).map(
+        lambda t: dict(t[0], ops=t[1], via=t[2], exc=t[3])
+    )
 
 
 def _one_raise(ops):
